@@ -17,7 +17,10 @@ Record opspec := mkO {
                         6 immediate bytes, 7 low nibble of the is4 byte, 8 absolute offset (moffs),
                         9 memory addressed by the fixed register o_fixed (string instructions, maskmovdqu, monitor): not
                           encoded; o_immval = 1 when it is the DS-side operand that takes the segment-override prefix,
-                        10 branch displacement (rel8/16/32): reported as the target relative to the START of the instruction *)
+                        10 branch displacement (rel8/16/32): reported as the target relative to the START of the instruction,
+                        11 memory addressed by the register in ModRM.reg (enqcmd / movdir64b destination, es: segment),
+                        12 the register after the one in ModRM.reg (second mask of vp2intersect: k+1),
+                        13 memory addressed by the register in ModRM.rm of the register form (umonitor) *)
   o_msz : Z;         (* memory operand size in bytes (0 = unspecified) *)
   o_immoff : Z;      (* byte offset of this immediate inside the immediate bytes *)
   o_immsz : Z;       (* size in bytes *)
@@ -179,6 +182,23 @@ Definition mk_operand (m : mode) (r : row) (s : sinst) (o : opspec) : option ope
   else if sl =? 10 then
     let v := imm_field (s_imm s) (o_immoff o) (o_immsz o) in
     Some (OImm (if o_immsz o =? 1 then sext8 v else if o_immsz o =? 2 then sext16 v else sext32 v))
+  else if sl =? 11 then
+    match s_modrm s with
+    | MMem reg _ => Some (OMem (o_msz o) 0 (addr_cls m (s_pfx s)) reg 0 0 0 0 0)
+    | _ => None
+    end
+  else if sl =? 13 then
+    (* umonitor: memory addressed by the register in ModRM.rm of the REGISTER form; segment override and 67 apply *)
+    match s_modrm s with
+    | MReg _ rm => Some (OMem (o_msz o) (p_seg (s_pfx s)) (addr_cls m (s_pfx s)) rm 0 0 0 0 0)
+    | _ => None
+    end
+  else if sl =? 12 then
+    match s_modrm s with
+    | MReg reg _ => mk_reg m s (o_cls o) (reg + 1)
+    | MMem reg _ => mk_reg m s (o_cls o) (reg + 1)
+    | MNone _ _ _ _ => None
+    end
   else if sl =? 9 then
     Some (OMem (o_msz o) (if o_immval o =? 1 then p_seg (s_pfx s) else 0) (addr_cls m (s_pfx s)) (o_fixed o) 0 0 0 0 0)
   else None.
